@@ -334,11 +334,13 @@ Proof.
   unfold import_message_signals in H. cbv zeta in H.
   destruct (filter (fun p : Z * dsignal => ds_muxor (snd p)) _) as [|[mid dmx] [|m2 mr]] eqn:Emux.
   - (* no multiplexor *)
+    destruct (existsb _ _); [discriminate|].
     revert H. apply (fold_result_inv _ (fun a => evolved st (fst a))); [intros [i x] w; reflexivity| |exact Hbase].
     intros [st0 sg] [id ds] [st2 sg2] Pa Hx. cbn [bind fst] in *.
     destruct (import_signal env st0 mpos (dm_id dm) id ds) as [[s st1]|w] eqn:E; cbn [bind] in Hx; [|discriminate].
     apply bind_ok in Hx. destruct Hx as [sg' [_ Hx]]. inversion Hx; subst. eapply Hsig; eauto.
   - (* one multiplexor *)
+    destruct (ds_muxed dmx); [discriminate|].
     apply bind_ok in H. destruct H as [[[[st1 muxed] stds] last] [H1 H]].
     assert (E1 : evolved st st1).
     { revert H1. apply (fold_result_inv _ (fun a => evolved st (fst (fst (fst a))))); [intros [i x] w; reflexivity| |exact Hbase].
@@ -375,6 +377,7 @@ Proof.
     destruct (lookup key_eqb _ (ie_ext_muxes env)).
     + destruct (lookup String.eqb _ _); [|discriminate]. destruct (Nat.leb j n); [discriminate|].
       inversion Hx; subst. cbn [fst]. eapply Hmux; eauto.
-    + apply bind_ok in Hx. destruct Hx as [[st4 sg4] [Hy Hx]]. inversion Hx; subst. cbn [fst].
+    + destruct (ds_muxed dmx'); [discriminate|].
+      apply bind_ok in Hx. destruct Hx as [[st4 sg4] [Hy Hx]]. inversion Hx; subst. cbn [fst].
       apply bind_ok in Hy. destruct Hy as [sg' [_ Hy]]. inversion Hy; subst. eapply Hmux; eauto.
 Qed.
